@@ -50,7 +50,9 @@ def sibling_doc(rnd):
         kids = [(k[0], k[1], dict(k[2], xmlns=rnd.choice(['urn:one', 'urn:two', 'urn:one'])) if rnd.random() < 0.7 else k[2], k[3])
                 if k[0] == 'e' else k for k in kids]
         mode = 'xml'
-    ul = ('e', 'ul', {}, kids)
+    # the parent's own kind never matters: an <iframe> that kept element children (html.parser, API, XHTML) numbers them like any parent
+    pname = rnd.choice(['ul', 'ul', 'ul', 'iframe', 'iframe', 'div'])
+    ul = ('e', pname, {}, kids)
     with warnings.catch_warnings():
         warnings.simplefilter('ignore')
         if mode == 'api':
@@ -60,10 +62,11 @@ def sibling_doc(rnd):
         elif mode == 'toplevel':
             top = gen_trees.build_api(kids or [ul])                   # siblings directly under the document object
         elif mode == 'xml':
-            top = gen_trees.parse_with('<?xml version="1.0"?>' + gen_trees.to_markup(('e', 'root', {}, [ul]), xml=True), 'xml')
+            root = ('e', 'root', {}, [ul]) if rnd.random() < 0.6 else ('e', 'html', {'xmlns': 'http://www.w3.org/1999/xhtml'}, [('e', 'body', {}, [ul])])
+            top = gen_trees.parse_with('<?xml version="1.0"?>' + gen_trees.to_markup(root, xml=True), 'xml')
         else:
             top = gen_trees.parse_with(gen_trees.to_markup(('e', 'html', {}, [('e', 'body', {}, [ul])])), mode)
-    return top, 'nth/' + mode + '/' + style
+    return top, 'nth/' + mode + '/' + style + ('/iframe' if pname == 'iframe' else '')
 
 
 def run(tier, seed):
